@@ -249,34 +249,79 @@ func TestRoundtrip(t *testing.T) {
 
 // every structure in turn, a fixed number of assignments each (so that none is starved by the random pick)
 //
-// The last few assignments of every structure that has a buffer in its data block give one such buffer a
+// After them every structure that has a buffer in its data block gets assignments that give one such buffer a
 // length at which a width or sign slip in a length computation shows: 255/256, 32767/32768 and 65000
 // (the data block holds at most 65535 bytes; the other buffers of that assignment stay tiny). A buffer
 // counted by an 8-bit field stops at 255, one whose length the generator mirrors into a pad at 32000.
+// Every (structure, data-block buffer) pair is crossed with the two lengths just past the 8-bit and the
+// signed 16-bit boundary (256 and 32768; thorough tier: with all five) deterministically - the pairs are few,
+// and a slip in the handling of one buffer's length shows on that buffer only - and a few more
+// assignments per structure draw buffer and length.
+type everyPlan struct {
+	name  string
+	field string // "": an ordinary assignment; otherwise the data-block buffer that takes a long length
+	n     int    // the length (0: drawn)
+}
+
+func longLengths(name, field string) []int {
+	lens := []int{255, 256, 32767, 32768, 65000}
+	count, mirrored := smbgen.CountFor(name, field)
+	if mirrored {
+		lens = []int{255, 256, 32000}
+	}
+	if count != "" {
+		e, _ := smbgen.ByName(name)
+		if cf, ok := reflect.TypeOf(smbgen.New(e)).Elem().FieldByName(count); ok && smbgen.FixedWidth(cf.Type) == 1 {
+			lens = []int{254, 255}
+		}
+	}
+	return lens
+}
+
 func TestRoundtripEveryStructure(t *testing.T) {
 	s := vf.Begin(t, P, "roundtrip-every-structure")
 	names := smbgen.Names()
-	long := vf.N(2, 24)
-	per := vf.N(25, 400) + long
+	drawn := vf.N(2, 24)
+	ordinary := vf.N(25, 400)
 	dataFields := map[string][]string{}
 	nLong := 0
 	for _, e := range smbgen.Inventory() {
 		dataFields[e.Name] = smbgen.DataByteFields(e)
 		nLong += len(dataFields[e.Name])
 	}
-	s.Note("%d data-block buffers in %d structures take the long lengths", nLong, len(names))
 	if nLong < 40 {
 		t.Fatalf("INFRA: only %d data-block buffers found: marking of variable-length fields broken", nLong)
 	}
-	idx := 0
-	vf.Rapid(s, len(names)*per, func(t *rapid.T) cmdCase {
-		name := names[(idx/per)%len(names)]
-		k := idx % per
-		idx++
-		if fs := dataFields[name]; k >= per-long && len(fs) > 0 {
-			return genLongCase(t, name, fs)
+	var plan []everyPlan
+	enumerated := 0
+	for _, name := range names {
+		for i := 0; i < ordinary; i++ {
+			plan = append(plan, everyPlan{name: name})
 		}
-		return genCase(t, name, smbgen.Options{MaxBytes: 48})
+		fs := dataFields[name]
+		for _, f := range fs {
+			for _, n := range longLengths(name, f) {
+				// quick tier: the length just past each boundary (256, 32768; the largest one a mirrored or
+				// 8-bit-counted buffer can take); thorough tier: all of them
+				if vf.Thorough() || n == 256 || n >= 32000 && n != 65000 && n != 32767 || n == 254 || n == 255 && len(longLengths(name, f)) == 2 {
+					plan = append(plan, everyPlan{name, f, n})
+					enumerated++
+				}
+			}
+		}
+		for i := 0; i < drawn && len(fs) > 0; i++ {
+			plan = append(plan, everyPlan{name, fs[i%len(fs)], 0})
+		}
+	}
+	s.Note("%d data-block buffers in %d structures take the long lengths: %d (buffer, length) pairs enumerated, %d more drawn per structure", nLong, len(names), enumerated, drawn)
+	idx := 0
+	vf.Rapid(s, len(plan), func(t *rapid.T) cmdCase {
+		p := plan[idx%len(plan)]
+		idx++
+		if p.field != "" {
+			return genLongCase(t, p.name, p.field, p.n)
+		}
+		return genCase(t, p.name, smbgen.Options{MaxBytes: 48})
 	}, func(c cmdCase) []vf.Finding {
 		if l := longest(c); l >= 255 {
 			s.Class(fmt.Sprintf("buffer>=%d", map[bool]int{false: 255, true: 32768}[l >= 32768]))
@@ -285,22 +330,15 @@ func TestRoundtripEveryStructure(t *testing.T) {
 	}, nontrivialCase)
 }
 
-func genLongCase(t *rapid.T, name string, fields []string) cmdCase {
+// genLongCase: a tiny assignment in which buffer field takes n bytes (n == 0: one of its long lengths, drawn).
+func genLongCase(t *rapid.T, name, field string, n int) cmdCase {
 	e, _ := smbgen.ByName(name)
 	cmd := smbgen.New(e)
 	smbgen.Fill(t, cmd, smbgen.Options{MaxBytes: 4, MaxElems: 1})
-	f := fields[rapid.IntRange(0, len(fields)-1).Draw(t, "longField")]
-	lens := []int{255, 256, 32767, 32768, 65000}
-	count, mirrored := smbgen.CountFor(name, f)
-	if mirrored {
-		lens = []int{255, 256, 32000}
+	if n == 0 {
+		n = rapid.SampledFrom(longLengths(name, field)).Draw(t, "longLen")
 	}
-	if count != "" {
-		if cf, ok := reflect.TypeOf(cmd).Elem().FieldByName(count); ok && smbgen.FixedWidth(cf.Type) == 1 {
-			lens = []int{254, 255}
-		}
-	}
-	smbgen.FillBytes(t, cmd, f, rapid.SampledFrom(lens).Draw(t, "longLen"))
+	smbgen.FillBytes(t, cmd, field, n)
 	return cmdCase{name, smbgen.Snapshot(cmd)}
 }
 
@@ -429,6 +467,17 @@ func checkOrder(c orderCase) []vf.Finding {
 		if subject := c.Base.Struct + "." + b.Name; !have[subject+"\x00"+kind] {
 			have[subject+"\x00"+kind] = true
 			out = append(out, vf.F(subject, kind, "%s (%s) at [%d,+%d) declared after %s (%s) at [%d,+%d)", b.Name, b.Class, b.Start, b.Width, a.Name, a.Class, a.Start, a.Width))
+		}
+	}
+	// "Each exactly as wide as its type" where the successor is not a markable fixed-width field: what follows
+	// a fixed-width field, a count field or a byte field (with its terminator) in the declaration and in the
+	// same block - a count field, a byte buffer, a string behind its format byte (and length) - starts
+	// exactly where that field ends; bytes in between belong to no field.
+	for _, g := range smbgen.Gaps(e, c.Base.Fields, located) {
+		kind := "unowned-bytes-between-adjacent-slots"
+		if subject := c.Base.Struct + "." + g.Next.Name; !have[subject+"\x00"+kind] {
+			have[subject+"\x00"+kind] = true
+			out = append(out, vf.F(subject, kind, "%s (%s) ends at %d, %s (%s) starts at %d behind %d bytes of its own framing", g.Prev.Name, g.Prev.Class, g.PrevEnd, g.Next.Name, g.Next.Class, g.Next.Start, g.Lead))
 		}
 	}
 	return out
@@ -658,4 +707,170 @@ func TestAndXRoundtrip(t *testing.T) {
 		idx++
 		return andxCase{genCase(t, name, smbgen.Options{MaxBytes: 16}), rapid.Byte().Draw(t, "andxCommand"), rapid.Byte().Draw(t, "andxReserved"), rapid.Uint16().Draw(t, "andxOffset")}
 	}, checkAndXRoundtrip, func(c andxCase) bool { return c.Reserved != 0 && c.Offset != 0 })
+}
+
+// ---- lists of 255, 256 and 300 elements ------------------------------------------------------------------------
+//
+// The generated lists of structures or words hold a handful of elements. Their counts are USHORTs (UCHARs in
+// two places): a decoder that runs its loop on the low byte of the count, or an encoder that truncates it, shows
+// only from 256 elements on. Every (structure, list field) pair is crossed with the lengths on both sides of that
+// boundary (254/255 under an 8-bit count; a list of words inside the parameter block stops where the word count
+// reaches 255) and must round-trip like any other assignment. A structure that does not round-trip even with one
+// element in the list is left to the round-trip sub-checks and not judged here.
+
+type listCase struct {
+	Base  cmdCase `json:"base"`
+	Field string  `json:"list_field"`
+	Len   int     `json:"elements"`
+}
+
+func withListLength(c cmdCase, field string, n int) (cmdCase, error) {
+	cmd, _, err := build(c)
+	if err != nil {
+		return c, err
+	}
+	l := reflect.ValueOf(cmd).Elem().FieldByName(field)
+	if !l.IsValid() || l.Kind() != reflect.Slice || l.Len() < n {
+		return c, fmt.Errorf("no list %s of at least %d elements", field, n)
+	}
+	l.Set(l.Slice(0, n))
+	smbgen.ApplyRelations(cmd)
+	return cmdCase{c.Struct, smbgen.Snapshot(cmd)}, nil
+}
+
+func checkLongList(c listCase) (fs []vf.Finding, status string) {
+	short, err := withListLength(c.Base, c.Field, 1)
+	if err != nil {
+		return []vf.Finding{vf.F("harness", "bad-case", "%v", err)}, "bad-case"
+	}
+	if len(checkRoundtrip(short)) > 0 {
+		return nil, "not-judged:does-not-round-trip-with-one-element"
+	}
+	return checkRoundtrip(c.Base), "judged"
+}
+
+// listLengths: the element counts a list field is tried at, found from the structure itself: whether one more
+// element grows the parameter block (then the word count bounds the list) and how wide the count field is.
+func listLengths(e smbgen.Entry, field string) []int {
+	enc := func(n int) []byte {
+		cmd := smbgen.NewValid(e)
+		l := reflect.ValueOf(cmd).Elem().FieldByName(field)
+		l.Set(reflect.MakeSlice(l.Type(), n, n))
+		smbgen.Normalize(l)
+		smbgen.ApplyRelations(cmd)
+		b, err := safeMarshal(cmd)
+		if err != nil || len(b) == 0 {
+			return nil
+		}
+		return b
+	}
+	e0, e1 := enc(0), enc(1)
+	if e0 == nil || e1 == nil {
+		return nil
+	}
+	lens := []int{255, 256, 300}
+	if count, _ := smbgen.CountFor(e.Name, field); count != "" {
+		if cf, ok := reflect.TypeOf(smbgen.New(e)).Elem().FieldByName(count); ok && smbgen.FixedWidth(cf.Type) == 1 {
+			lens = []int{254, 255}
+		}
+	}
+	if per := int(e1[0]) - int(e0[0]); per > 0 {
+		// in the parameter block: at most 255 words in all
+		room := (255 - int(e0[0])) / per
+		var out []int
+		for _, n := range append([]int{room / 2, room - 1, room}, lens...) {
+			if n >= 1 && n <= room && n <= lens[len(lens)-1] {
+				out = append(out, n)
+			}
+		}
+		return out
+	}
+	return lens
+}
+
+func TestRoundtripLongLists(t *testing.T) {
+	s := vf.Begin(t, P, "roundtrip-long-lists")
+	type target struct {
+		e     smbgen.Entry
+		field string
+		n     int
+	}
+	var targets []target
+	var named []string
+	for _, e := range smbgen.Inventory() {
+		for _, f := range smbgen.ListFields(smbgen.New(e)) {
+			seen := map[int]bool{}
+			for _, n := range listLengths(e, f) {
+				if !seen[n] {
+					seen[n] = true
+					targets = append(targets, target{e, f, n})
+					named = append(named, fmt.Sprintf("%s.%s x %d", e.Name, f, n))
+				}
+			}
+		}
+	}
+	s.Note("%d (list field, length) pairs: %v", len(targets), named)
+	if len(targets) < 6 {
+		t.Fatalf("INFRA: only %d list fields found", len(targets))
+	}
+	per := vf.N(2, 12)
+	idx := 0
+	vf.Rapid(s, len(targets)*per, func(t *rapid.T) listCase {
+		tg := targets[(idx/per)%len(targets)]
+		idx++
+		cmd := smbgen.New(tg.e)
+		smbgen.Fill(t, cmd, smbgen.Options{MaxBytes: 6, MaxElems: 1})
+		smbgen.FillList(t, cmd, tg.field, tg.n, smbgen.Options{MaxBytes: 6})
+		return listCase{cmdCase{tg.e.Name, smbgen.Snapshot(cmd)}, tg.field, tg.n}
+	}, func(c listCase) []vf.Finding {
+		fs, st := checkLongList(c)
+		s.Class(st)
+		return fs
+	}, func(c listCase) bool { return c.Len >= 128 })
+}
+
+// ---- NegotiateResponse.DomainName / ServerName on the assignments that do round-trip --------------------------------
+//
+// Both fields carry a recorded finding in the two round-trip sub-checks (signature: field, field-not-preserved): the
+// encoder emits DomainName as it is and never emits ServerName, the decoder cuts DomainName at the first aligned
+// 00 00 unit and gives the rest to ServerName. A signature covers every assignment, so the recorded finding would
+// also absorb a new defect on the assignments that work today - and these two fields are the only users of the
+// UTF-16 reader in commands/utils. Those assignments get their own sub-check, in which nothing is listed: DomainName
+// a whole number of non-zero 16-bit units (a UTF-16 string without its terminator), ServerName empty, everything
+// else generated. They must round-trip like any other assignment.
+
+func TestNegotiateResponseNames(t *testing.T) {
+	s := vf.Begin(t, P, "negotiate-response-names")
+	e, ok := smbgen.ByName("NegotiateResponse")
+	if !ok {
+		t.Fatalf("INFRA: NegotiateResponse is not reachable from the factories")
+	}
+	vf.Rapid(s, vf.N(600, 10000), func(t *rapid.T) cmdCase {
+		cmd := smbgen.New(e)
+		smbgen.Fill(t, cmd, smbgen.Options{MaxBytes: 16})
+		units := rapid.SampledFrom([]int{0, 1, 1, 2, 2, 3, 5, 8, 15, 40, 127, 128, 300}).Draw(t, "units")
+		name := make([]byte, 0, 2*units)
+		for i := 0; i < units; i++ {
+			u := uint16(rapid.IntRange(1, 0xFFFF).Draw(t, "unit"))
+			if rapid.Bool().Draw(t, "ascii") {
+				u = uint16(rapid.IntRange(0x20, 0x7E).Draw(t, "char"))
+			}
+			name = append(name, byte(u), byte(u>>8))
+		}
+		rv := reflect.ValueOf(cmd).Elem()
+		rv.FieldByName("DomainName").SetBytes(name)
+		rv.FieldByName("ServerName").SetBytes([]byte{})
+		smbgen.ApplyRelations(cmd)
+		return cmdCase{e.Name, smbgen.Snapshot(cmd)}
+	}, func(c cmdCase) []vf.Finding {
+		cmd, _, err := build(c)
+		if err != nil {
+			return []vf.Finding{vf.F("harness", "bad-case", "%v", err)}
+		}
+		s.Class(fmt.Sprintf("domain-name-units:%s", map[bool]string{false: "1..", true: "0"}[reflect.ValueOf(cmd).Elem().FieldByName("DomainName").Len() == 0]))
+		return checkRoundtrip(c)
+	}, func(c cmdCase) bool {
+		cmd, _, err := build(c)
+		return err == nil && reflect.ValueOf(cmd).Elem().FieldByName("DomainName").Len() > 0
+	})
 }
